@@ -47,6 +47,13 @@ class Recorder:
         self.chunks.append(s)
         return len(s)
 
+    def writelines(self, lines):  # (part of the text-stream interface: a caller's stream has it)
+        for s in lines:
+            self.write(s)
+
+    def flush(self):
+        pass
+
     def getvalue(self):
         return "".join(self.chunks)
 
@@ -532,9 +539,9 @@ class C03(core.Check):
                 self.set_item(b2, key, ["blocks", lst])
                 steps.append({"op": "share", "from": [list(x) for x in p], "key": key, "src": src, "to": [list(x) for x in p2]})
             else:
-                steps.append({"op": "print", "how": r.choice(["dumps", "dumps", "dump", "save"]), "pp": r.randrange(len(PP))})
+                steps.append({"op": "print", "how": r.choice(["dumps", "dumps", "dump", "save"]), "pp": r.randrange(len(PP)), "as_list": r.random() < 0.08})
             # shadow was mutated in place while generating: nothing else to do
-        steps.append({"op": "print", "how": r.choice(["dumps", "dump", "save"]), "pp": r.randrange(len(PP))})
+        steps.append({"op": "print", "how": r.choice(["dumps", "dump", "save"]), "pp": r.randrange(len(PP)), "as_list": r.random() < 0.08})
         faults = []
         if k.random() < 0.15:
             f = s("faults")
@@ -745,6 +752,12 @@ class C03(core.Check):
                         continue
                     kw["quote"] = other
             how = step["how"]
+            real_root = real
+            if step.get("as_list"):
+                # several root objects, as loads() returns them for a file holding more than one: here the same one twice
+                real = [real_root, real_root]
+                if want[0] == "tokens":
+                    want = ("tokens", list(want[1]) + list(want[1]))
             fired_before = len(fs.fired_faults)
             fs.files["/simfs/out/map.map"] = b"OLD CONTENT\n"
             rec = Recorder()
@@ -759,7 +772,8 @@ class C03(core.Check):
                 else:
                     got = core.call(lambda: mf.save(real, "/simfs/out/map.map", **kw))
                     text = fs.files["/simfs/out/map.map"].decode("utf-8") if got[0] == "ok" else None
-            bump("print." + how)
+            real = real_root
+            bump("print." + how + (".list_of_roots" if step.get("as_list") else ""))
             trace.append([how, got[0], core.digest(text) if text is not None else got[1][1], len(fs.history)])
             faulted = len(fs.fired_faults) > fired_before
             if faulted:
